@@ -10,7 +10,7 @@ from ..gen import random_plan, rand_fraction, enc_amount
 from ..models import si_table as SI
 from ..models.world import predefined_world
 from ..oracle import brief
-from ..ops import derived, rogue_converter_sub
+from ..ops import derived, computed, rogue_converter_sub
 
 RULE = ("triples of same-type quantities built to collide: equal across "
         "units, near-ties (+-1e-30 relative), Decimal/Fraction twins, "
@@ -57,9 +57,13 @@ def triple_sub(chk, rng, w, wid, plan=None):
             kinds = ("D",)
         else:
             kinds = ("D", "F", "int")
+        ce = None if style == "twins" else computed(rng, w, x, s)
+        if ce is not None:
+            chk.count("operands that are results of value-changing "
+                      "operations")
         steps.append({"id": names[i], "k": names[i],
-                      "e": derived(rng, Q(enc_amount(rng, x, kinds)[0], s),
-                                   s)})
+                      "e": ce if ce is not None else
+                      derived(rng, Q(enc_amount(rng, x, kinds)[0], s), s)})
     for i in range(3):
         for j in range(3):
             for op in OPS:
